@@ -348,8 +348,13 @@ def base_programs(tier):
                                    ["Add", ["Load", "ctr"], ["Int", 1]]]})
     sub = {"params": [["x", "val"]], "ret": "u", "body": ["Seq", ["Assert", ["Load", "x"]], ["Return", ["Add", ["Load", "x"], ["Int", 1]]]],
            "locals": [], "init_locals": False}
-    progs.append({"mode": "A", "vars": {}, "subs": {"f": sub},
-                  "main": ["Seq", ["Assert", ["Call", "f", ["Int", 1]]], ["If", ["Call", "f", ["Int", 2]], ["Seq", ["TickS", 1]]], ["Int", 1]]})
+    # two DIFFERENT subroutines: the subname variants give both the same name (names are annotations, the call
+    # targets must not depend on them)
+    sub2 = {"params": [["x", "val"]], "ret": "u", "body": ["Seq", ["Return", ["Mul", ["Load", "x"], ["Int", 3]]]],
+            "locals": [], "init_locals": False}
+    progs.append({"mode": "A", "vars": {}, "subs": {"f": sub, "g": sub2},
+                  "main": ["Seq", ["Assert", ["Call", "f", ["Int", 1]]], ["If", ["Call", "g", ["Int", 2]], ["Seq", ["TickS", 1]]],
+                           ["Eq", ["Add", ["Call", "f", ["Int", 7]], ["Call", "g", ["Int", 7]]], ["Int", 29]]]})
     return progs
 
 
